@@ -633,6 +633,9 @@ class Exec:
         self.fuel = self.FUEL
         self.merger = Merger()
         self.max_tokens = None             # bound on symbolic token iteration (recorded in .bounded when hit)
+        self.self_stack = []
+        self.const_env = [{}]
+        self.reductions = []               # (caller key, kind, init, closure, items) recorded by the fold model
         self.bounded = []
 
     # ---- helpers ---------------------------------------------------------------------------
@@ -919,12 +922,26 @@ class Exec:
             return self.read_place(st, fid, o['place'])
         if k == 'const':
             if 'fn' in o:
-                return mk('fnref', o['fn']['def'])
+                f = o['fn']
+                try:
+                    key, sty = self.resolve_callee({'key': None, 'self_ty': self.cur_self_ty()}, f)
+                except Uncertified:
+                    key, sty = None, None
+                return mk('fnref', key or (f.get('resolved') or f['def']), sty, bool(key), f['def'])
             val = o.get('val')
             if isinstance(val, dict) and 'opaque' in val and 'promoted' in o and o['promoted'] is not True:
                 return self.run_promoted(st, o['promoted_owner'], o['promoted'])
             return self.conv_const(val, o['ty'])
         raise Uncertified("operand kind %s" % k)
+
+    def cur_self_ty(self):
+        return self.self_stack[-1] if self.self_stack else None
+
+    def const_param(self, name):
+        for env in reversed(self.const_env[-1:]):
+            if name in env:
+                return env[name]
+        raise Uncertified("const generic parameter %s has no value in this context" % name)
 
     def run_promoted(self, st, owner, ix):
         """Evaluate a promoted constant body that rustc could not evaluate generically (it has no parameters)."""
@@ -1036,9 +1053,10 @@ class Exec:
             return self.discriminant(v)
         if k == 'repeat':
             a = self.operand(st, fid, rv['op'])
-            if rv['n'] is None:
-                raise Uncertified("repeat with unknown count")
-            return agg(('array',), [a] * rv['n'])
+            n_ = rv['n']
+            if n_ is None:
+                n_ = self.const_param(rv.get('n_name'))
+            return agg(('array',), [a] * n_)
         raise Uncertified("rvalue %s: %s" % (k, rv.get('s', '')))
 
     def _cast_leaf(self, l, to):
@@ -1117,10 +1135,12 @@ class Exec:
         mir = self.pdb.fn(key)['mir']
         ctx = {'key': key, 'self_ty': self_ty, 'depth': 0, 'fid': fid}
         self.fn_stack.append(key)
+        self.self_stack.append(self_ty)
         try:
             outs = self.run(ctx, mir, start_bb, st, frozenset(stops))
         finally:
             self.fn_stack.pop()
+            self.self_stack.pop()
         return {k: self.merger.merge(v) for k, v in outs.items()}
 
     def enter(self, key, args, st=None):
@@ -1135,7 +1155,7 @@ class Exec:
         self.fuel = self.FUEL
         return st, fid
 
-    def call_fn(self, st, key, args, self_ty, depth):
+    def call_fn(self, st, key, args, self_ty, depth, consts=None):
         if depth > self.MAX_DEPTH:
             raise Uncertified("call depth bound exceeded at %s" % key)
         fn = self.pdb.fn(key)
@@ -1152,10 +1172,14 @@ class Exec:
         pc0, g0 = st.pc, st.gstack
         ctx = {'key': key, 'self_ty': self_ty, 'depth': depth, 'fid': fid}
         self.fn_stack.append(key)
+        self.self_stack.append(self_ty)
+        self.const_env.append(consts or {})
         try:
             outs = self.run(ctx, mir, 0, st, frozenset())
         finally:
             self.fn_stack.pop()
+            self.self_stack.pop()
+            self.const_env.pop()
         rets = outs.get('ret', [])
         if not rets:
             raise Uncertified("function %s never returns on the analysed paths" % key)
@@ -1333,7 +1357,7 @@ class Exec:
                 ret = models.derived(self, st, callee, cfn, args, f, t)
                 self.write_place(st, fid, t['dest'], ret)
                 return st
-            ret, st2 = self.call_fn(st, callee, args, self_ty, ctx['depth'] + 1)
+            ret, st2 = self.call_fn(st, callee, args, self_ty, ctx['depth'] + 1, self.const_bindings(callee, f))
             self.write_place(st2, fid, t['dest'], ret)
             return st2
         # foreign function: contract model
@@ -1341,6 +1365,19 @@ class Exec:
         ret, st = models.apply(self, ctx, st, f, args, dest_ty, t)
         self.write_place(st, fid, t['dest'], ret)
         return st
+
+    def const_bindings(self, callee, f):
+        gens = self.pdb.fn(callee).get('generics') or []
+        gargs = f.get('gargs') or []
+        out = {}
+        if len(gens) == len(gargs):
+            for g, a in zip(gens, gargs):
+                if g['k'] == 'const' and a.get('k') == 'const':
+                    v = a.get('val')
+                    if v is None:
+                        v = self.const_param(a.get('name'))
+                    out[g['name']] = v
+        return out
 
     def resolve_callee(self, ctx, f):
         """-> (local fn key | None, self type string for the callee's generic context)."""
